@@ -77,7 +77,7 @@ _DED = {
     "C18": 'Discharged: 53 entry points of HexaryTrie (incl. get_from_proof, traverse, traverse_from), BinaryTrie, SparseMerkleTree, calc_root, SparseMerkleProof, the fog and the branch helpers raise the stated exception on ill-typed / ill-sized arguments (and a reference count handed to a non-pruning trie, a snapshot from a pruning trie, a key size outside 1..32) before any field, database entry or reference count is written.',
     "C10": "Discharged: NodeIterator._get_next_key (recursive; through traverse_from and its one-hop clause) returns traversed ++ kmin(node) -- kmin: a leaf's path, () at a branch with a value, otherwise the extension path / the first occupied nibble followed by the first key of that child -- or None when the node holds no key; kmin(node) is a key the node really stores and it is the *least* one: for an arbitrary probe key, stored => not smaller (definitional unfolding of the lexicographic order, instances of the Lean theorems Fog.lt_irrefl and Fog.lt_append_left, lemma first_is_first); next() without a key returns the byte string whose nibbles are kmin(root), a stored key with no stored key smaller, and None on the empty trie. Lemmas first_child / branch_step / prefix_first / unit_first / first_is_first proved once. Not discharged: next(k) = strict successor (_get_key_after), keys / items / values / nodes generators -- bounded only; the order of byte keys equals the order of their nibble sequences is the Lean theorem Fog.nibs_lt.",
     "C11": 'Discharged: HexaryTrieFog.__init__ (only the root prefix is unexplored), is_complete (true exactly when nothing is left), mark_all_complete (loop invariant: exactly the listed prefixes are removed, from a copy -- the receiver is never modified; an unknown prefix is refused), nearest_right / nearest_unknown (the answer is a member of the unexplored set, for nearest_right the prefix containing the key or one to its right; PerfectVisibility / FullDirectionalVisibility exactly when nothing is left / nothing to the right), _prefix_distance (element-wise differences with 15 / 0 padding). sortedcontainers.SortedSet, itertools.zip_longest and map are modelled as assumed library contracts. explore() (with its nested validation loops), serialize / deserialize, the antichain invariant and order independence (Lean F.lean) are bounded only.',
-    "C09": 'Discharged: the library functions a fog-guided walk calls -- traverse, traverse_from (incl. one hop from a cached node reaches exactly its child), annotate_node, TraversedPartialPath and its simulated node (a node that describes the remainder: the enclosing leaf / extension with the tail cut off, same lookups below it), HexaryTrieFog.nearest_right / nearest_unknown (the answer is an unexplored prefix), mark_all_complete, is_complete. Lean F.lean walk_step: one step of the walk preserves `every key is either met or under an unexplored prefix`. TrieFrontierCache.__init__ / get / add / delete against a map view (nibble tuple -> (node, segment), arbitrary probe key): get answers what the last add that listed the prefix stored, KeyError otherwise; add(P, n, segs) enters P + s -> (n, s) for every listed s (loop invariant), drops P's own entry unless P is the root prefix or is listed again, leaves every other entry alone; delete removes exactly one entry; and the representation invariant `the cached segment is a suffix of its key` (what makes traverse_from(node, segment) end at the key's prefix) is kept by all of them. Not discharged by this technique: explore(), the walk as a whole over a changing trie (a property of histories of client steps), and termination -- bounded only.',
+    "C09": 'Discharged: the library functions a fog-guided walk calls -- traverse, traverse_from (incl. one hop from a cached node reaches exactly its child), annotate_node, TraversedPartialPath and its simulated node (a node that describes the remainder: the enclosing leaf / extension with the tail cut off, same lookups below it), HexaryTrieFog.nearest_right / nearest_unknown (the answer is an unexplored prefix), mark_all_complete, is_complete. Lean F.lean walk_step: one step of the walk preserves `every key is either met or under an unexplored prefix`. TrieFrontierCache.__init__ / get / add / delete against a map view (nibble tuple -> (node, segment), arbitrary probe key): get answers what the last add that listed the prefix stored, KeyError otherwise; add(P, n, segs) enters P + s -> (n, s) for every listed s (loop invariant), drops the own entry of P unless P is the root prefix or is listed again, leaves every other entry alone; delete removes exactly one entry; and the representation invariant `the cached segment is a suffix of its key` (what makes traverse_from(node, segment) end at the prefix of the key) is kept by all of them. Not discharged by this technique: explore(), the walk as a whole over a changing trie (a property of histories of client steps), and termination -- bounded only.',
 }
 for _pid, _t in _DED.items():
     PROPERTY_TEXT[_pid]["level_text"] = PROPERTY_TEXT[_pid]["level_text"] + " DEDUCTIVE PART: " + _t
